@@ -126,7 +126,11 @@ func suiteKernels(rn *runner, r *rng, tier string) {
 		case 3, 4:
 			text, kind = cr.mutate(cr.doc(cfg)), "mut"
 		case 5:
-			text, kind = cr.raw(), "raw"
+			if cr.chance(1, 2) {
+				text, kind = cr.denseCtrl(), "densectrl"
+			} else {
+				text, kind = cr.raw(), "raw"
+			}
 		case 6:
 			text, kind = strings.Repeat("\\", cr.intn(70))+"\""+cr.raw(), "bs"
 			text = "[\"" + text
